@@ -944,6 +944,11 @@ def _scoped_blocks(node, outer, target=None, found=None):
             rec(c, ctx)
             rec(n.get("then"), c2)
             rec(n.get("else"), ctx)
+        elif k == "While":
+            c = n.get("cond")
+            c2 = ctx | {x["name"] for x in walk(c) if x.get("k") == "PIdent"} if c else ctx
+            rec(c, ctx)
+            rec(n.get("body"), c2)
         elif k in ("Fn", "Impl", "Mod"):
             return
         else:
